@@ -103,13 +103,21 @@ class Sim:
         pc = self.funcs[func]
         steps = 0
         callstack = []
-        while pc < len(self.lines):
+        while True:
+            if pc >= len(self.lines):
+                if not callstack:
+                    return "end"
+                pc, func = callstack.pop()      # the called function is the last one of the text
+                continue
             steps += 1
             if steps > max_steps:
                 return "timeout"
             f, mn, op = self.lines[pc]
-            if f != func and not callstack:
-                return "end"
+            if f != func:
+                if not callstack:
+                    return "end"
+                pc, func = callstack.pop()      # end of a called function's text: the builder appends the RTS
+                continue
             pc += 1
             if mn == "LABEL":
                 continue
